@@ -21,6 +21,7 @@ import (
 	"fmt"
 	"github.com/echovault/sugardb/internal"
 	"github.com/echovault/sugardb/internal/clock"
+	"github.com/echovault/sugardb/internal/verifhook"
 	"io"
 	"io/fs"
 	"log"
@@ -143,6 +144,7 @@ func NewSnapshotEngine(options ...func(engine *Engine)) *Engine {
 			}()
 			for {
 				<-ticker.C
+				verifhook.Event("snap.tick", engine.changeCount.Load(), engine.snapshotThreshold)
 				if engine.changeCount.Load() >= engine.snapshotThreshold {
 					if err := engine.TakeSnapshot(); err != nil {
 						log.Println(err)
@@ -158,6 +160,8 @@ func NewSnapshotEngine(options ...func(engine *Engine)) *Engine {
 func (engine *Engine) TakeSnapshot() error {
 	engine.startSnapshotFunc()
 	defer engine.finishSnapshotFunc()
+	verifhook.Point("snap.begin")
+	defer verifhook.Point("snap.end")
 
 	// Extract current time
 	msec := engine.clock.Now().UnixMilli()
@@ -214,6 +218,7 @@ func (engine *Engine) TakeSnapshot() error {
 		return err
 	}
 
+	verifhook.Point("snap.state_copied")
 	snapshotHash := md5.Sum(out)
 	if snapshotHash == manifest.LatestSnapshotHash {
 		return errors.New("nothing new to snapshot")
@@ -237,6 +242,7 @@ func (engine *Engine) TakeSnapshot() error {
 	if err := os.MkdirAll(snapshotDir, os.ModePerm); err != nil {
 		return err
 	}
+	verifhook.Point("snap.dir_created")
 
 	// Create snapshot file
 	f, err := os.OpenFile(path.Join(snapshotDir, "state.bin"), os.O_WRONLY|os.O_CREATE|os.O_TRUNC, os.ModePerm)
@@ -244,17 +250,20 @@ func (engine *Engine) TakeSnapshot() error {
 		log.Println(err)
 		return err
 	}
+	verifhook.Point("snap.state_created")
 
 	// Write state to file
 	if _, err = f.Write(out); err != nil {
 		_ = f.Close()
 		return err
 	}
+	verifhook.Point("snap.state_written")
 	if err = f.Sync(); err != nil {
 		_ = f.Close()
 		log.Println(err)
 		return err
 	}
+	verifhook.Point("snap.state_synced")
 	if err = f.Close(); err != nil {
 		log.Println(err)
 		return err
@@ -276,11 +285,13 @@ func (engine *Engine) TakeSnapshot() error {
 		log.Println(err)
 		return err
 	}
+	verifhook.Point("snap.manifest_tmp_created")
 	if _, err = mf.Write(mo); err != nil {
 		_ = mf.Close()
 		log.Println(err)
 		return err
 	}
+	verifhook.Point("snap.manifest_tmp_written")
 	if err = mf.Sync(); err != nil {
 		_ = mf.Close()
 		log.Println(err)
@@ -291,12 +302,14 @@ func (engine *Engine) TakeSnapshot() error {
 		return err
 	}
 
+	verifhook.Point("snap.manifest_tmp_synced")
 	// Atomically replace the manifest.
 	if err = os.Rename(tmpManifestPath, manifestPath); err != nil {
 		log.Println(err)
 		return err
 	}
 
+	verifhook.Point("snap.manifest_renamed")
 	// Set the latest snapshot in unix milliseconds
 	engine.setLatestSnapshotTimeFunc(msec)
 
